@@ -98,13 +98,13 @@ def run(REG, tier, seed, jobs):
     ev, nt, fails = pmap(_tok_chunk, chunked(strings(ALPHA, n), 20000), jobs)
     parts.append({'name': 'C19/bounded/Version.__init__==spec_toks', 'function': 'Version.__init__', 'bound': f'all strings of <= {n} characters over {ALPHA!r}',
                   'evaluations': ev, 'distinct_nontrivial': nt, 'rule': 'non-trivial: the spec tokenisation has >= 2 components', 'exhaustive': True, 'failures': fails})
-    vs = [s for s in strings(['1', '2', '10', 'a', 'b', '.', '-'], 3)]
+    vs = [s for s in strings(['1', '2', '10', 'a', 'A', 'b', '.', '-'], 3)]
     rnd = random.Random(seed)
     pairs = list(itertools.product(vs, vs))
     if tier == 'quick':
         pairs = rnd.sample(pairs, 20000)
     ev, nt, fails = pmap(_cmp_chunk, chunked(iter(pairs), 2000), jobs)
-    parts.append({'name': 'C19/bounded/version_compare-vs-order', 'function': 'version_compare', 'bound': f'{len(pairs)} pairs of version strings of <= 3 fragments over 1,2,10,a,b,.,- x 8 operator spellings x 2 spacings',
+    parts.append({'name': 'C19/bounded/version_compare-vs-order', 'function': 'version_compare', 'bound': f'{len(pairs)} pairs of version strings of <= 3 fragments over 1,2,10,a,A,b,.,- x 8 operator spellings x 2 spacings',
                   'evaluations': ev, 'distinct_nontrivial': nt, 'rule': 'non-trivial: the two versions are not equal in the order', 'exhaustive': tier != 'quick', 'failures': fails})
     single = [op + v for op in RANGE_OPS for v in VERS[:5]]
     k = 2 if tier == 'quick' else 3
